@@ -118,11 +118,12 @@ def check(w):
            [s for s in base if s["kinds"] == ["replace", "new", "replace"] and s["ntoks"] == [2, 1, 1]]
     if len(conf) != 2:
         raise Broken("cut configurations not found in the generated scenarios")
-    sizes = {}
+    sizes, lsizes = {}, {}
     for o in obs:
         key = (json.dumps(o["kinds"]), json.dumps(o["ntoks"]), o["recv"])
         if not o.get("weak"):
             sizes[key] = (o["bytes"], o["upbytes"])
+            lsizes[key] = o.get("listbytes", 0)
     cuts = []
     for s in conf:
         for rv in ("client", "daemon"):
@@ -141,6 +142,24 @@ def check(w):
             for n in offs:
                 if n % 4 == 0 or not quick:
                     cuts.append(dict(s, recv=rv, mode="cut", n=n, batch=True, long=True))
+    # one bit of the data segment inverted in transit, at offsets behind the file list (all of them when they are few, else the first 64, the last 48 and a seeded sample):
+    # the session may fail as it likes - no listed path may hold anything but its previous or its new content
+    nflips = 0
+    for s in conf:
+        for rv in ("client", "daemon"):
+            key = (json.dumps(s["kinds"]), json.dumps(s["ntoks"]), rv)
+            span = sizes[key][0] - lsizes[key]
+            if lsizes[key] <= 0 or span <= 0:
+                raise Broken("no file-list length recorded for %s" % (key,))
+            offs = list(range(span))
+            if len(offs) > (150 if quick else 1500):
+                # every offset of the first 64 bytes (indices, sum head, first token word) and of the last 48 (end
+                # marker, trailer, phase markers, statistics), a seeded sample of the rest
+                mid = offs[64:-48]
+                offs = offs[:64] + rnd.sample(mid, min(len(mid), (40 if quick else 1400))) + offs[-48:]
+            for n in offs:
+                cuts.append(dict(s, recv=rv, mode="flip", n=n, batch=False))
+                nflips += 1
     for i, s in enumerate(cuts):
         s["id"] = 100000 + i
     cobs, csumm = run(w, cuts, "cut")
@@ -184,7 +203,11 @@ def check(w):
                     confirmed.setdefault(k, []).append(o)
             todo = {k: ids for k, ids in todo.items() if k not in confirmed}
         if todo:
-            raise Broken("violations not reproduced in 3 re-runs (no verdict): %s" % list(todo)[:3])
+            # a rejected case that does not show again in three re-runs never becomes a verdict; many of them mean an unstable harness
+            nlost = sum(len(ids) for ids in todo.values())
+            if nlost > max(3, len(allobs) // 1000):
+                raise Broken("violations not reproduced in 3 re-runs (no verdict): %s" % list(todo)[:3])
+            v.notes.append("%d rejected case(s) did not reproduce in 3 re-runs and were dropped (no verdict from them): %s" % (nlost, list(todo)[:3]))
         for k, os_ in confirmed.items():
             if k not in first:
                 continue          # a different kind showed up only in the re-run: not a confirmation of anything
@@ -220,7 +243,7 @@ def check(w):
                 "non-trivial = every freeze snapshot and every interrupted session",
         "samples": [{"kinds": o["kinds"], "ntoks": o["ntoks"], "recv": o["recv"], "mode": o["mode"],
                      "events": [(e["d"], e["stage"], "".join(x[0] for x in e["snap"]), e["lnk"]) for e in o["events"]][:8], "final": o["final"]} for o in (obs[:1] + cobs[:1] + kobs[:1])],
-        "snapshots": nsnap, "freeze_sessions": len(obs), "cut_sessions": len(cobs), "kill_sessions": len(kobs),
+        "snapshots": nsnap, "freeze_sessions": len(obs), "cut_sessions": len(cobs) - nflips, "damaged_sessions": nflips, "damaged_sessions_that_failed": sum(1 for o in cobs if o["mode"] == "flip" and o["final"]["result"] == "err"), "kill_sessions": len(kobs),
         "model_states": r["distinct"], "model_transitions": r["generated"], "action_coverage": cov,
         "traces_validated_against_impl": len(allobs), "negative_controls": len(bad),
     }
